@@ -32,6 +32,7 @@ type Shape struct {
 	Want    []Msg  // fetch: the records encoded in Set
 	Got     []Msg  // fetch: records delivered by the batch
 	Deliver string // fetch: "-" | "prefix" | "notprefix"
+	Via     string // fetch: "" = ReadBatchWith + Batch.ReadMessage; "ReadMessage" = Conn.ReadMessage; "Read" = Conn.Read (one record each)
 	ReadN   int    // fetch: 0 = read the batch to its end; n > 0 = read at most n records, then Close; -1 = Close at once
 }
 
@@ -230,6 +231,29 @@ var Ops = []*Op{
 		Call: func(c *kafka.Conn, sh *Shape) (string, error) {
 			sh.Got, sh.Deliver = nil, "-"
 			if _, err := c.Seek(sh.Offset, kafka.SeekAbsolute|kafka.SeekDontCheck); err != nil {
+				return "", err
+			}
+			if sh.Via != "" {
+				// the single-record convenience calls of Conn: ReadBatch(1, max) + one record + Batch.Close
+				var m kafka.Message
+				var err error
+				if sh.Via == "Read" {
+					buf := make([]byte, 1<<16)
+					var n int
+					n, err = c.Read(buf)
+					if err == nil && len(sh.Want) > 0 {
+						m = kafka.Message{Offset: sh.Want[0].Offset, Key: []byte(sh.Want[0].Key), Value: buf[:n]}
+					}
+				} else {
+					m, err = c.ReadMessage(1 << 20)
+				}
+				sh.Deliver = "prefix"
+				if err == nil {
+					sh.Got = append(sh.Got, Msg{m.Offset, string(m.Key), string(m.Value)})
+					if len(sh.Want) == 0 || sh.Got[0] != sh.Want[0] {
+						sh.Deliver = "notprefix"
+					}
+				}
 				return "", err
 			}
 			b := c.ReadBatchWith(kafka.ReadBatchConfig{MinBytes: 1, MaxBytes: 1 << 20})
